@@ -1,0 +1,44 @@
+//! Verification hooks (cargo feature `verif-hooks`, off by default).
+//!
+//! With no callback installed and no clock override every function here is a
+//! no-op, so a hook build behaves like the plain build.
+
+use std::sync::atomic::{AtomicU64, Ordering};
+use std::sync::{Arc, RwLock};
+
+use crate::store::Frame;
+
+/// `(sync point name, tag, frame at hand)`. The tag is 0 for store writes and a
+/// per-`Store::read` sequence number for the sync points inside a read.
+pub type Callback = Arc<dyn Fn(&'static str, u64, Option<&Frame>) + Send + Sync>;
+
+static CALLBACK: RwLock<Option<Callback>> = RwLock::new(None);
+static NOW_MS: AtomicU64 = AtomicU64::new(0);
+static NEXT_TAG: AtomicU64 = AtomicU64::new(1);
+
+pub fn set_callback(cb: Option<Callback>) {
+    *CALLBACK.write().unwrap() = cb;
+}
+
+pub fn sync_point(name: &'static str, tag: u64, frame: Option<&Frame>) {
+    let cb = CALLBACK.read().unwrap().clone();
+    if let Some(cb) = cb {
+        cb(name, tag, frame);
+    }
+}
+
+pub fn next_tag() -> u64 {
+    NEXT_TAG.fetch_add(1, Ordering::SeqCst)
+}
+
+/// Override the wall clock seen by TTL expiry (0 = no override).
+pub fn set_now_ms(ms: u64) {
+    NOW_MS.store(ms, Ordering::SeqCst);
+}
+
+pub fn adjust_now(real_ms: u64) -> u64 {
+    match NOW_MS.load(Ordering::SeqCst) {
+        0 => real_ms,
+        ms => ms,
+    }
+}
